@@ -160,14 +160,19 @@ static int in_child(int which) {
 }
 
 static void failure_conventions(void) {
+  checkpoint("new(huge,nothrow)");
   void* p = ::operator new(SIZE_MAX / 2, std::nothrow);
   code("new(huge,nothrow)->nullptr", p == NULL, p != NULL, 0);
+  checkpoint("new[](huge,nothrow)");
   p = ::operator new[](SIZE_MAX / 2, std::nothrow);
   code("new[](huge,nothrow)->nullptr", p == NULL, p != NULL, 0);
+  checkpoint("new(huge,align_val_t,nothrow)");
   p = ::operator new(SIZE_MAX / 2, std::align_val_t(64), std::nothrow);
   code("new(huge,align_val_t,nothrow)->nullptr", p == NULL, p != NULL, 0);
+  checkpoint("new[](huge,align_val_t,nothrow)");
   p = ::operator new[](SIZE_MAX / 2, std::align_val_t(64), std::nothrow);
   code("new[](huge,align_val_t,nothrow)->nullptr", p == NULL, p != NULL, 0);
+  checkpoint("delete(nullptr)");
   ::operator delete(NULL); ::operator delete[](NULL); ::operator delete(NULL, 10); ::operator delete(NULL, std::align_val_t(64));
   code("delete(nullptr)", 1, 0, 0);
   /* throwing form, huge request: 42 = std::bad_alloc thrown, 1006 = abort() (mimalloc built as C cannot
@@ -187,10 +192,12 @@ int main(int argc, char** argv) {
   int thorough = (argc > 2 ? atoi(argv[2]) : 0);
   long last = (getenv("T_OVERRIDE_LAST") ? atol(getenv("T_OVERRIDE_LAST")) : -1);   /* replay of one pair */
   if (!probes_init()) { printf("END 0 1\n"); return 0; }
-  if (first == 0) {
-    resolve_symbols(argc, argv, 3);
+  if (first == 0) resolve_symbols(argc, argv, 3);
+  if (first == 0 && !getenv("T_OVERRIDE_SKIP_CODES")) {
+    checkpoint("containers");
     containers();
     failure_conventions();
+    checkpoint("done");
   }
   static const size_t sizes_q[] = { 1, 8, 24, 100, 1000, 9000, 70000, 140000, 3000000 };
   static const size_t sizes_t[] = { 1, 2, 7, 8, 9, 16, 24, 48, 100, 511, 1000, 1024, 4096, 8192, 9000, 65536, 70000,
